@@ -1315,7 +1315,26 @@ func c19ZMutate(s *verifgen.Src, wire, other []byte, hs int) []byte {
 	n := 1 + s.Intn(3)
 	fix := s.Chance(3, 4)
 	for k := 0; k < n && len(b) > 0; k++ {
-		switch s.Intn(11) {
+		switch s.Intn(13) {
+		case 11, 12: // grow a 16-bit-length-prefixed blob consistently: the length field and the data behind it
+			// (a decoder that copies the announced number of octets into a fixed buffer is only in danger
+			// when the octets are really there)
+			if len(b) > hs+2 {
+				start := hs + s.Intn(len(b)-hs-1)
+				for i := start; i+2 <= len(b); i++ {
+					l := int(binary.BigEndian.Uint16(b[i:]))
+					if i+2+l <= len(b) && (l > 0 || s.Chance(1, 8)) {
+						nl := verifgen.Pick(s, []int{l + 1, 255, 256, 1023, 1024, 1025, 1026, 2000, 4096})
+						if nl > l && len(b)+nl-l < 60000 {
+							grow := s.Bytes(nl - l)
+							at := i + 2 + l
+							b = append(b[:at:at], append(grow, b[at:]...)...)
+							binary.BigEndian.PutUint16(b[i:], uint16(nl))
+						}
+						break
+					}
+				}
+			}
 		case 0:
 			b = b[:s.Intn(len(b)+1)]
 		case 1:
@@ -1413,6 +1432,33 @@ func runC19Z(c c19ZCase, st *verifkit.Stats) *verifkit.Failure {
 		}
 		return c19ZCheckMessage(in, f, st)
 	case c19ZMutant:
+		if f.frr(8, 100) && s.Chance(1, 5) {
+			// a route whose opaque block announces more than the decoder's fixed buffer holds,
+			// with the octets really present (frr8 and later)
+			r := &IPRouteBody{Prefix: Prefix{Family: syscall.AF_INET, PrefixLen: 24, Prefix: netip.MustParseAddr("10.0.0.0")}, Message: messageOpaque}
+			each := RouteAdd.ToEach(f.v, f.sw)
+			if s.Bool() {
+				each = RedistributeRouteAdd.ToEach(f.v, f.sw)
+			}
+			r.API = each
+			r.opaque.length = messageOpaqueLenth
+			for i := range r.opaque.data {
+				r.opaque.data[i] = 0xab
+			}
+			var body []byte
+			var err error
+			if c19ZSafely("serialize", func() { body, err = r.serialize(f.v, f.sw) }) == nil && err == nil {
+				if i := bytes.Index(body, bytes.Repeat([]byte{0xab}, 64)); i >= 2 {
+					nl := int(messageOpaqueLenth) + verifgen.Pick(s, []int{1, 2, 16, 500, 3000})
+					grown := append([]byte{}, body[:i]...)
+					binary.BigEndian.PutUint16(grown[i-2:], uint16(nl))
+					grown = append(grown, bytes.Repeat([]byte{0xab}, nl)...)
+					grown = append(grown, body[i+int(messageOpaqueLenth):]...)
+					st.Label("seed-opaque-overflow")
+					return c19ZCheckMessage(c19ZFrame(f, each, 0, grown), f, st)
+				}
+			}
+		}
 		w1, name := c19ZWire(s, f)
 		w2, _ := c19ZWire(s, f)
 		st.Label("seed-" + name)
